@@ -188,6 +188,20 @@ func implArena(c core.Case) []string {
 					return "bad-op"
 				}
 				r = slicez.FilterInPlace(ws[0].of(arena), accFn(acc))
+			case "values":
+				if len(h) < 2 || len(gs) != 1 {
+					return "bad-op"
+				}
+				k, e1 := strconv.Atoi(h[1])
+				ws, ok := wins(h[2:], false)
+				if e1 != nil || !ok {
+					return "bad-op"
+				}
+				ss := make([][]int, len(ws))
+				for i, w := range ws {
+					ss[i] = w.of(arena)
+				}
+				r = slicez.Values(func(v int) int { return v * k }, ss...)
 			case "copy", "subslice":
 				if len(h) != 4 || len(gs) != 1 {
 					return "bad-op"
@@ -354,7 +368,7 @@ func genArena(r *core.Rand) core.Case {
 	for i := 0; i < ops; i++ {
 		s1 := srcWin()
 		s2 := rel(s1)
-		switch r.Pick(8, 8, 6, 5, 6, 14, 14, 5, 4, 5, 12, 4, 4, 5) {
+		switch r.Pick(8, 8, 6, 5, 6, 14, 14, 5, 4, 5, 12, 4, 4, 5, 5, 0) {
 		case 0:
 			emit("diff %s %s %s", dstWin(s1, s2), s1, s2)
 		case 1:
@@ -388,7 +402,12 @@ func genArena(r *core.Rand) core.Case {
 			emit("subslice %d %d %s", r.Range(-1, s1.l+1), r.Range(-1, s1.l+1), s1)
 		case 12:
 			emit("remove %d %s", r.Range(-1, s1.l), s1)
-		default:
+		case 14:
+			emit("values %d %s %s", r.Range(1, 3), s1, s2)
+			if r.Chance(40) {
+				emit("appendsrc %s ; %d", s1, 80+i)
+			}
+		case 13:
 			emit("appendsrc %s ; %d", s1, 70+i)
 		}
 	}
@@ -600,6 +619,23 @@ func checkArena(c core.Case, out []string) *core.Failure {
 			}
 			if !unchangedOutside(0, 0) {
 				return fail("stray-write", "the arena (incl. spare capacity) is not written")
+			}
+		case "values":
+			k, _ := strconv.Atoi(h[1])
+			var want []int
+			for _, tok := range h[2:] {
+				for _, v := range w(tok).of(before) {
+					want = append(want, v*k)
+				}
+			}
+			if !slices.Equal(res.content, want) {
+				return fail("values-arena", showInts(want))
+			}
+			if res.kind == "win" || res.kind == "nil" {
+				return fail("values-not-fresh", "freshly made (non-nil) memory, not a window of an argument's array")
+			}
+			if !unchangedOutside(0, 0) {
+				return fail("stray-write", "the arena is only read")
 			}
 		case "remove":
 			idx, _ := strconv.Atoi(h[1])
